@@ -33,6 +33,9 @@ func SigmaFull() []Step {
 		Filter(Or(Cmp("==", OpP(at(a)), LitNum(1)), NotExists(at(b)))),
 		Filter(Or(Cmp("!=", OpP(at(a)), OpP(rt(b))), Exists(at(b)))),
 		Filter(Exists(at(a, Filter(Exists(at(b)))))),
+		// '$' inside a filter nested in an '@'-rooted operand still denotes the document root
+		Filter(Exists(at(a, Filter(Cmp("==", OpP(at()), OpP(rt(b))))))),
+		Filter(Exists(at(Filter(Exists(rt(b)))))),
 	}
 }
 
@@ -86,6 +89,21 @@ func SigmaBoundary() []Step {
 	}
 }
 
+// AtomFilters: every atom of the filter alphabet and the pairwise combinations of a reduced
+// set, as filter steps (used under the fixed prefix $.c on MemberDocs).
+func AtomFilters(pairs bool) []Step {
+	var out []Step
+	for _, q := range Atoms() {
+		out = append(out, Filter(q))
+	}
+	if pairs {
+		for _, cb := range Pairs(ReducedAtoms()[:12]) {
+			out = append(out, Filter(cb.Q))
+		}
+	}
+	return out
+}
+
 // FuncSuffixes are the single trailing-function suffixes.
 func FuncSuffixes() [][]string {
 	return [][]string{{"f"}, {"id"}, {"g"}, {"cnt"}, {"first"}, {"e"}, {"eg"}}
@@ -101,6 +119,8 @@ type Ladder struct {
 	MinPrefix int // only trie nodes with at least this many steps become units
 	Modes     []int // decodings to explore for this ladder (nil = all)
 	Keep      func(p *Path) bool // optional filter on the enumerated paths
+	Fixed     []Step             // steps prepended to every path of the ladder (not counted in Depth)
+	CoreDocs  bool               // evaluate only on the node-bounded and wide documents (not the member documents)
 }
 
 // Unit is a prefix (trie node) of a ladder; it stands for the paths prefix·x (x in Alpha)
@@ -139,6 +159,24 @@ func (l *Ladder) Units() []Unit {
 // Paths lists the paths a unit stands for. The bare prefix itself (no function) is included
 // only for the empty prefix; longer prefixes are covered as prefix'·x of their parent unit.
 func (u Unit) Paths() []*Path {
+	if len(u.L.Fixed) > 0 {
+		// enumerate without the fixed prefix, then prepend it
+		l2 := *u.L
+		l2.Fixed = nil
+		keep := l2.Keep
+		l2.Keep = nil
+		var out []*Path
+		for _, p := range (Unit{L: &l2, Prefix: u.Prefix}).Paths() {
+			if len(p.Steps) == 0 && len(p.Funcs) == 0 {
+				continue
+			}
+			q := &Path{Root: '$', Steps: append(append([]Step{}, u.L.Fixed...), p.Steps...), Funcs: p.Funcs}
+			if keep == nil || keep(q) {
+				out = append(out, q)
+			}
+		}
+		return out
+	}
 	var out []*Path
 	if len(u.Prefix) == 0 {
 		out = append(out, &Path{Root: '$'})
